@@ -1,10 +1,11 @@
 import Driver.Dwarf
+import Driver.Cfi
 
 /-! One JSON request per input line, one JSON answer per output line. -/
 open Lean Driver
 
 def handlers : List (String → Json → Option (Except String Json)) :=
-  [Driver.Dwarf.handle]
+  [Driver.Dwarf.handle, Driver.Cfi.handle]
 
 def dispatch (line : String) : Json :=
   match Json.parse line with
